@@ -70,7 +70,7 @@ func c01WriteCounts(w *World, r *Report) { c01WriteCountsRule(w, r, "R01.6") }
 
 func c01WriteCountsRule(w *World, r *Report, rule string) {
 	var fns []*ssa.Function
-	for fn := range allModuleFuncs(w, w.SSA()) {
+	for _, fn := range sortedModuleFuncs(w, w.SSA()) {
 		obj := fnObj(fn)
 		if obj == nil || obj.Name() != "Write" {
 			continue
@@ -142,7 +142,7 @@ func isLenOf(v ssa.Value, target ssa.Value) bool {
 func c01Reads(w *World, r *Report) {
 	prog := w.SSA()
 	var fns []*ssa.Function
-	for fn := range allModuleFuncs(w, prog) {
+	for _, fn := range sortedModuleFuncs(w, prog) {
 		obj, ok := fn.Object().(*types.Func)
 		if !ok || obj.Name() != "Read" {
 			continue
@@ -292,7 +292,7 @@ func c01ReadAhead(w *World, r *Report) {
 	embedded := fieldOf(bic, "Connection")
 	nuse := 0
 	badUse := ""
-	for f := range allModuleFuncs(w, w.SSA()) {
+	for _, f := range sortedModuleFuncs(w, w.SSA()) {
 		pk := ""
 		if f.Pkg != nil {
 			pk = f.Pkg.Pkg.Path()
@@ -466,7 +466,7 @@ func rootsThroughHelpers(w *World, v ssa.Value, depth int) []ssa.Value {
 
 func c01Smux(w *World, r *Report) {
 	n := 0
-	for fn := range allModuleFuncs(w, w.SSA()) {
+	for _, fn := range sortedModuleFuncs(w, w.SSA()) {
 		allInstrs(fn, func(in ssa.Instruction) {
 			c, ok := in.(*ssa.Call)
 			if !ok {
@@ -713,7 +713,7 @@ func ruleWsReadLimit(w *World, r *Report, rule string) {
 	}
 	n := 0
 	var bad []string
-	for fn := range allModuleFuncs(w, w.SSA()) {
+	for _, fn := range sortedModuleFuncs(w, w.SSA()) {
 		for _, c := range callsIn(fn) {
 			f := sCallee(c)
 			if f == nil || f.Name() != "SetReadLimit" || f.Pkg() == nil || !strings.Contains(f.Pkg().Path(), "gorilla/websocket") {
